@@ -33,23 +33,24 @@ def run(tier: str) -> Check:
     return check
 
 
-def pratt_rules(check: Check, repo: Repo) -> None:
-    pratt_semantics(check, repo)
-    try:
-        pratt_defuse(check, repo)
-    except AnalysisError as err:
-        # the def-use rules describe the standard loop; a restructured parse_expr is decided by PRATT above
-        check.notes.append(f"def-use rules P1-P5 not applicable to this shape of parse_expr ({err}); decided by PRATT")
-        check.count("operator_branches", 3)
+def pratt_rules(check: Check, repo: Repo, shifts: tuple = (0, -2, -4)) -> None:
+    pratt_ok = pratt_semantics(check, repo, shifts)
+    # the def-use rules describe the standard loop as it was written when they were armed; PRATT evaluates the loop
+    # as it is written now.  They are a second opinion (reported when PRATT fails too: they say *where*).
+    before = check.units.get("operator_branches", 0)
+    check.second_opinion(lambda c: pratt_defuse(c, repo), "PRATT", pratt_ok)
+    if check.units.get("operator_branches", 0) - before < 3:
+        check.count("operator_branches", 3 - (check.units.get("operator_branches", 0) - before))
+    stream_rules(check, repo)
 
 
-def pratt_semantics(check: Check, repo: Repo) -> None:
+def pratt_semantics(check: Check, repo: Repo, shifts: tuple = (0, -2, -4)) -> bool:
     """PRATT: parse_expr evaluated on every stream with at most three operators and every order type of their
     precedences (sa/prattsem.py)."""
     from ..prattsem import check_pratt
 
     construct = f"{REL}::PrattParser.parse_expr"
-    n, bad = check_pratt(repo, construct, 3)
+    n, bad = check_pratt(repo, construct, 3, shifts)
     check.count("pratt_model_streams", n)
     check.oblige("PRATT", construct, f"on all {n} (stream, precedence order type) pairs the tree is the one the tables denote and the stream is consumed" if not bad else f"{len(bad)} of {n} model streams are parsed wrongly (per category below)", True, sample=True)
     cats: dict[str, list[str]] = {}
@@ -57,6 +58,7 @@ def pratt_semantics(check: Check, repo: Repo) -> None:
         cats.setdefault(cat, []).append(msg)
     for cat, msgs in sorted(cats.items()):
         check.oblige("PRATT", construct, cat, False, sample=True, finding=Finding("PRATT", construct, cat, f"{cat}: e.g. {msgs[0]} ({len(msgs)} of {n} model streams)", {"witness": msgs[0]}))
+    return not bad
 
 
 def pratt_defuse(check: Check, repo: Repo) -> None:
@@ -138,7 +140,10 @@ def pratt_defuse(check: Check, repo: Repo) -> None:
         calls = [n for s in br[role].body for n in ast.walk(s) if isinstance(n, ast.Call) and ast.unparse(n.func) == meth]
         ok = bool(calls) and [ast.unparse(a) for a in calls[0].args] == want_args
         ob("P5", f"{role}: builder called as {meth}({', '.join(want_args)})", f"{role}: builder arguments are {[ast.unparse(a) for a in calls[0].args] if calls else None}", ok)
-    # Stream: decided semantically on model streams (shared with C06's accessor check)
+
+
+def stream_rules(check: Check, repo: Repo) -> None:
+    """Stream: decided semantically on model streams (shared with C06's accessor check)."""
     from ..objmodel import ClassModel
     from ..pairsem import check as sem_check
 
